@@ -24,21 +24,55 @@ pub struct Case {
     pub time: u32,
 }
 
+/// Deterministic "noise" for the fields next to the (date, time) pair under test: a pure function of the pair, so
+/// every generator and enumerator of this file covers it and replays need no extra field. Boundary values of the
+/// neighbouring pair's own domain are boosted (a neighbour at its end-of-day / zero / maximum value must not
+/// leak into the pair under test).
+fn noise(date: u32, time: u32, salt: u64) -> u64 {
+    let mut x = ((date as u64) << 32 | time as u64) ^ salt.wrapping_mul(0x9E37_79B9_7F4A_7C15);
+    x ^= x >> 33;
+    x = x.wrapping_mul(0xFF51_AFD7_ED55_8CCD);
+    x ^= x >> 33;
+    x = x.wrapping_mul(0xC4CE_B9FE_1A85_EC53);
+    x ^ (x >> 33)
+}
+
+fn neighbour_minutes(date: u32, time: u32) -> u16 {
+    const T: [u16; 7] = [0, 1, 1439, 1440, 1441, 0x7FFF, 0xFFFF];
+    let n = noise(date, time, 1);
+    match n % 10 {
+        k @ 0..=6 => T[k as usize],
+        _ => (n >> 16) as u16,
+    }
+}
+
+fn neighbour_date(date: u32, time: u32) -> u16 {
+    let n = noise(date, time, 2);
+    match n % 8 {
+        0 => 0,
+        1 => 1,
+        2 => date as u16,
+        3 => 0xFFFF,
+        _ => (n >> 16) as u16,
+    }
+}
+
 /// Calls the carrier's accessor. Ok(None) = accessor returned None.
 fn accessor(carrier: &str, date: u32, time: u32) -> Result<Option<i64>, Fail> {
     let conv = |dt: Option<DateTime<Utc>>| dt.map(|d| d.timestamp_millis());
     match carrier {
         "message_header" => {
+            let n = noise(date, time, 3);
             let h = wire::MsgHeaderSpec {
-                rpg: [0; 12],
-                size: 10,
-                channel: 0,
-                mtype: 1,
-                seq: 7,
+                rpg: n.to_be_bytes().repeat(2)[..12].try_into().unwrap_or([0; 12]),
+                size: if n % 5 == 0 { 0xFFFF } else { (n >> 8) as u16 },
+                channel: (n >> 24) as u8,
+                mtype: (n >> 32) as u8,
+                seq: (n >> 40) as u16,
                 date: date as u16,
                 time,
-                seg_count: 1,
-                seg_num: 1,
+                seg_count: neighbour_date(date, time),
+                seg_num: neighbour_minutes(date, time),
             };
             let bytes = h.encode();
             let hdr = decode_message_header(&mut &bytes[..]).map_err(|e| Fail::new("decode-error", format!("{:?}", e)))?;
@@ -94,9 +128,14 @@ fn accessor(carrier: &str, date: u32, time: u32) -> Result<Option<i64>, Fail> {
             Ok(conv(hdr.date_time()))
         }
         "rda_bypass_map" | "rda_clutter_map" => {
-            let mut b = vec![0u8; 120];
+            // every other halfword of the message carries noise; the *other* map's (date, time) pair gets boundary
+            // values of its own domain (0, 1439, 1440, 1441, ...) boosted
+            let mut b: Vec<u8> = (0..120u64).map(|i| (noise(date, time, 100 + i / 8) >> (8 * (i % 8))) as u8).collect();
             // halfwords 19/20 = bypass map date/time, 21/22 = clutter filter map date/time
             let (hd, ht) = if carrier == "rda_bypass_map" { (19, 20) } else { (21, 22) };
+            let (od, ot) = if carrier == "rda_bypass_map" { (21, 22) } else { (19, 20) };
+            put16(&mut b, 2 * (od - 1), neighbour_date(date, time));
+            put16(&mut b, 2 * (ot - 1), neighbour_minutes(date, time));
             put16(&mut b, 2 * (hd - 1), date as u16);
             put16(&mut b, 2 * (ht - 1), time as u16);
             let m = rda_status_data::decode_rda_status_message(&mut &b[..])
